@@ -44,6 +44,7 @@ type frame struct {
 	inDefer bool
 	// loop bookkeeping for the unit frame
 	variant map[int]string // header index -> variant value at loop head
+	loopEntry map[int]*loopSnap // header index -> state at loop entry
 }
 
 type State struct {
@@ -53,6 +54,7 @@ type State struct {
 	fresh   map[string]bool     // pointer terms allocated on this path
 	ptrs    map[string][]string // struct name -> pointer terms known so far
 	depth   int
+	nonnil  map[string]bool
 	ended   bool
 	callSeq map[string]int
 }
@@ -72,6 +74,10 @@ func (st *State) clone() *State {
 	}
 	for k, v := range st.callSeq {
 		n.callSeq[k] = v
+	}
+	n.nonnil = map[string]bool{}
+	for k, v := range st.nonnil {
+		n.nonnil[k] = v
 	}
 	n.script = make([]entry, len(st.script))
 	copy(n.script, st.script)
@@ -99,6 +105,12 @@ func (st *State) clone() *State {
 			nf.variant[k] = v
 		}
 		nf.defers = append([]deferred{}, f.defers...)
+		if f.loopEntry != nil {
+			nf.loopEntry = map[int]*loopSnap{}
+			for k, v := range f.loopEntry {
+				nf.loopEntry[k] = v
+			}
+		}
 		n.frames = append(n.frames, &nf)
 	}
 	return n
@@ -281,9 +293,18 @@ func (x *Exec) val(st *State, v ssa.Value) Val {
 		}
 		panic(unsupported("constant " + v.String()))
 	case *ssa.Global:
-		name := "g_" + v.Pkg.Pkg.Name() + "_" + v.Name()
-		cx.declUF(name, fmt.Sprintf("(declare-const %s %s)", name, cx.intSort()))
+		name := "g_" + v.Pkg.Pkg.Name() + "_" + sanitize(v.Name())
 		et := v.Type().(*types.Pointer).Elem()
+		if v.Name() == "init$guard" {
+			return Val{S: name, T: v.Type(), A: &Addr{Kind: aGlobalRO, Ptr: "false", Base: et, Elem: et}}
+		}
+		if !x.w.StoredGlobals[v.Pkg.Pkg.Name()+"."+v.Name()] && x.fn.Name() != "init" {
+			// never assigned after initialisation: its value is a constant of the program
+			gv := "gv_" + v.Pkg.Pkg.Name() + "_" + v.Name()
+			cx.declUF(gv, fmt.Sprintf("(declare-const %s %s)", gv, cx.sortOf(et)))
+			return Val{S: name, T: v.Type(), A: &Addr{Kind: aGlobalRO, Ptr: gv, Base: et, Elem: et}}
+		}
+		cx.declUF(name, fmt.Sprintf("(declare-const %s %s)", name, cx.intSort()))
 		return Val{S: name, T: v.Type(), A: &Addr{Kind: aCell, Ptr: name, Key: cx.cellKey(et), Base: et, Elem: et}}
 	case *ssa.Function:
 		return Val{S: x.fnTerm(v), T: v.Type()}
@@ -377,6 +398,8 @@ func (x *Exec) rootOf(st *State, a *Addr) string {
 		panic(unsupported("local cell not live: " + a.Cell))
 	case aHeapField, aCell:
 		return fmt.Sprintf("(select %s %s)", x.heapName(st, a.Key), a.Ptr)
+	case aGlobalRO:
+		return a.Ptr
 	}
 	panic("bad addr")
 }
@@ -403,6 +426,8 @@ func (x *Exec) storeAddr(st *State, a *Addr, v string, site string) {
 			}
 		}
 		panic(unsupported("store to dead local cell"))
+	case aGlobalRO:
+		x.check(st, "frame:global@"+site, "false", site)
 	case aHeapField, aCell:
 		x.frameCheck(st, a.Key, a.Ptr, site)
 		root := fmt.Sprintf("(select %s %s)", x.heapName(st, a.Key), a.Ptr)
@@ -429,9 +454,13 @@ func (x *Exec) addrOf(st *State, v Val, site string) *Addr {
 }
 
 func (x *Exec) nilCheck(st *State, ptr string, site string) {
-	if st.fresh[ptr] || strings.HasPrefix(ptr, "g_") {
+	if st.fresh[ptr] || strings.HasPrefix(ptr, "g_") || st.nonnil[ptr] {
 		return
 	}
+	if st.nonnil == nil {
+		st.nonnil = map[string]bool{}
+	}
+	st.nonnil[ptr] = true
 	x.check(st, "safe:nil@"+site, fmt.Sprintf("(not (= %s %s))", ptr, x.cx.num(0)), site)
 }
 
@@ -600,6 +629,15 @@ func (x *Exec) loopEdge(st *State, li *loopInfo, from, to *ssa.BasicBlock) bool 
 	}
 	// move to the header first so that invariants see the cells
 	env := x.invEnv(st)
+	if fr.loopEntry != nil && fr.loopEntry[to.Index] != nil {
+		env.loopEntry = x.snapEnv(st, fr.loopEntry[to.Index])
+	}
+	if env.loopEntry == nil {
+		// first arrival: the entry state is the current state
+		e0 := x.invEnv(st)
+		e0.old = nil
+		env.loopEntry = e0
+	}
 	for i, cl := range spec.Invariants {
 		lab := cl.Label
 		if lab == "" {
@@ -607,6 +645,10 @@ func (x *Exec) loopEdge(st *State, li *loopInfo, from, to *ssa.BasicBlock) bool 
 		}
 		g := x.clauseTerm(st, cl, env)
 		x.check(st, fmt.Sprintf("%s#%d[%s]", kind, li.ord, lab), g, fmt.Sprintf("loop%d", li.ord))
+	}
+	ri := x.rangeIndexCell(st, li)
+	if ri != "" {
+		x.check(st, fmt.Sprintf("%s#%d[rangeindex]", kind, li.ord), x.cx.binop(token.LEQ, x.cx.num(-1), ri, types.Typ[types.Int], types.Typ[types.Bool]), fmt.Sprintf("loop%d", li.ord))
 	}
 	if back {
 		if spec.Decreases != nil {
@@ -621,11 +663,26 @@ func (x *Exec) loopEdge(st *State, li *loopInfo, from, to *ssa.BasicBlock) bool 
 		x.endPath(st)
 		return true
 	}
-	// entry: havoc what the loop modifies, assume the invariant, continue from the header
+	// entry: remember the state in which the loop is entered (atEntry), havoc what the loop modifies,
+	// assume the invariant, continue from the header
+	snapE := x.invEnv(st)
+	sn := &loopSnap{vars: snapE.vars, heap: map[string]string{}}
+	for k, v := range st.heap {
+		sn.heap[k] = v
+	}
+	if fr.loopEntry == nil {
+		fr.loopEntry = map[int]*loopSnap{}
+	}
+	fr.loopEntry[to.Index] = sn
+	snap := x.snapEnv(st, sn)
 	x.havocLoop(st, li)
 	env = x.invEnv(st)
+	env.loopEntry = snap
 	for _, cl := range spec.Invariants {
 		x.assume(st, x.clauseTerm(st, cl, env))
+	}
+	if ri := x.rangeIndexCell(st, li); ri != "" {
+		x.assume(st, x.cx.binop(token.LEQ, x.cx.num(-1), ri, types.Typ[types.Int], types.Typ[types.Bool]))
 	}
 	if spec.Decreases != nil {
 		v := x.name(st, "variant", Val{S: x.clauseTerm(st, spec.Decreases, env), T: types.Typ[types.Int]})
@@ -682,6 +739,11 @@ func (x *Exec) clauseTerm(st *State, cl *Clause, env *Env) string {
 		o.info = e.info
 		e.old = &o
 	}
+	if e.loopEntry != nil {
+		o := *e.loopEntry
+		o.info = e.info
+		e.loopEntry = &o
+	}
 	v := e.block(cl.Fn.Decl.Body.List)
 	return v.S
 }
@@ -707,6 +769,19 @@ func (x *Exec) step(st *State, ins ssa.Instruction) {
 		}
 		next()
 	case *ssa.Store:
+		if g, ok := ins.Addr.(*ssa.Global); ok && g.Name() == "init$guard" {
+			next()
+			return
+		}
+		if fa, ok := ins.Addr.(*ssa.FieldAddr); ok {
+			if k := fieldContracts[fieldName(fa)]; k != "" {
+				if p := x.provenance(fr.fn, ins.Val, 0); p != k {
+					x.check(st, "typecontract:"+fieldName(fa)+"@"+site, "false", site)
+				} else {
+					x.check(st, "typecontract:"+fieldName(fa)+"@"+site, "true", site)
+				}
+			}
+		}
 		a := x.val(st, ins.Addr)
 		v := x.val(st, ins.Val)
 		if v.A != nil && v.S == "" {
@@ -875,6 +950,17 @@ func (x *Exec) step(st *State, ins ssa.Instruction) {
 		x.doSlice(st, ins, site)
 		next()
 	case *ssa.MapUpdate:
+		if u, ok := ins.Map.(*ssa.UnOp); ok {
+			if fa, ok := u.X.(*ssa.FieldAddr); ok {
+				if k := fieldContracts[fieldName(fa)+"[]"]; k != "" {
+					if p := x.provenance(fr.fn, ins.Value, 0); p != k {
+						x.check(st, "typecontract:"+fieldName(fa)+"[]@"+site, "false", site)
+					} else {
+						x.check(st, "typecontract:"+fieldName(fa)+"[]@"+site, "true", site)
+					}
+				}
+			}
+		}
 		mv := x.val(st, ins.Map)
 		kx := x.val(st, ins.Key)
 		vx := x.val(st, ins.Value)
@@ -1061,7 +1147,7 @@ func (x *Exec) convert(st *State, v Val, from, to types.Type, site string) Val {
 		return x.name(st, "v", Val{S: cx.wrap(v.S, to), T: to})
 	case isIntType(from) && isString(to):
 		// string(byte) / string(rune) for ASCII; runes >= 128 produce multi-byte strings (not modelled)
-		cx.declUF("ax_s_byte", fmt.Sprintf("(assert (forall ((b %s)) (! (and (= (s_len (s_byte b)) %s) (= (s_at (s_byte b) %s) b)) :pattern ((s_byte b)))))", cx.intSort(), cx.num(1), cx.num(0)))
+		cx.declByteStr()
 		return x.name(st, "v", Val{S: fmt.Sprintf("(s_byte %s)", v.S), T: to})
 	case isString(from) && isString(to):
 		return Val{S: v.S, T: to}
@@ -1148,6 +1234,27 @@ func (x *Exec) makeClosure(st *State, ins *ssa.MakeClosure) {
 	fr := st.top()
 	f := ins.Fn.(*ssa.Function)
 	cx.sortOf(f.Signature)
+	if fc := x.w.Contracts[fnKey(x.w.pkgOfFn(f), f)]; fc != nil {
+		for i, fv := range f.FreeVars {
+			want := fc.FuncVars[fv.Name()]
+			if want == "" || want == "passthrough" {
+				continue
+			}
+			got := ""
+			if a, ok := ins.Bindings[i].(*ssa.Alloc); ok {
+				got = x.provenance(fr.fn, &ssa.UnOp{X: a}, 0)
+			} else if pfv, ok := ins.Bindings[i].(*ssa.FreeVar); ok {
+				if uc := x.w.Contracts[fnKey(x.w.pkgOfFn(fr.fn), fr.fn)]; uc != nil {
+					got = uc.FuncVars[pfv.Name()]
+				}
+			}
+			g := "true"
+			if got != want {
+				g = "false"
+			}
+			x.check(st, "typecontract:capture:"+fv.Name()+"@"+x.site(ins), g, x.site(ins))
+		}
+	}
 	// closure value: uninterpreted constructor over the binding pointers
 	name := "clo_" + sanitize(fnKey(x.w.pkgOfFn(f), f))
 	var sorts, args []string
@@ -1443,6 +1550,9 @@ func (x *Exec) havocLoop(st *State, li *loopInfo) {
 	for _, k := range ks {
 		x.heapHavocAll(st, k)
 	}
+	if len(ks) > 0 && x.con != nil && x.fn.Name() != "init" {
+		defer x.assumeGlobals(st)
+	}
 	for v := range cellPtrs {
 		if r, ok := fr.regs[v]; ok {
 			et := v.Type().(*types.Pointer).Elem()
@@ -1482,4 +1592,38 @@ func isBuilderMethod(f *ssa.Function) bool {
 func (x *Exec) unrollHeader(fr *frame, to *ssa.BasicBlock) bool {
 	li := x.loops[to.Index]
 	return fr.fn == x.fn && li != nil && li.spec != nil && li.spec.Unroll > 0 && fr.visits[to.Index] >= li.spec.Unroll
+}
+
+type loopSnap struct {
+	vars map[string]Val
+	heap map[string]string
+}
+
+func (x *Exec) snapEnv(st *State, sn *loopSnap) *Env {
+	return &Env{cx: x.cx, vars: sn.vars, heap: func(key string) string {
+		if n, ok := sn.heap[key]; ok {
+			return n
+		}
+		x.heapName(st, key)
+		return key + "@0"
+	}}
+}
+
+// rangeIndexCell: for a compiler-generated "for range" loop over a slice, the current value of its hidden index
+// cell (starts at -1, incremented at the loop head); "" for other loops.
+func (x *Exec) rangeIndexCell(st *State, li *loopInfo) string {
+	if li.header.Comment != "rangeindex.loop" {
+		return ""
+	}
+	fr := st.frames[0]
+	for _, ins := range li.header.Instrs {
+		if s, ok := ins.(*ssa.Store); ok {
+			if a, ok := s.Addr.(*ssa.Alloc); ok && a.Comment == "rangeindex" {
+				if c, ok := fr.cells[a]; ok {
+					return c
+				}
+			}
+		}
+	}
+	return ""
 }
